@@ -2,13 +2,25 @@ package propagation
 
 // C11 correspondence harness, propagator leg: Inject into a MapCarrier, Extract from it.
 //   injext <gen> <mlist> => <x header | - (header not set)> <bag found in the extracted context>   | err (New failed)
+//   ctx <gen> | <op>... => <observation per op>... | <bag found in every context at the end (context #0 = Background)>...
+//       every op derives a NEW context #n from context #<recv>:
+//       w:<recv>:<mlist>  ContextWithBaggage(ctx, New(mlist))  (a failing New gives the zero Baggage{})   obs: bag in the new context
+//       o:<recv>          ContextWithoutBaggage(ctx)                                                     obs: bag in the new context
+//       x:<recv>:<xhdr|-> Baggage{}.Extract(ctx, MapCarrier{"baggage": hdr}) (- = carrier without the key) obs: bag in the new context
+//       i:<recv>          Baggage{}.Inject(ctx, fresh MapCarrier); new context = ctx                     obs: <x header> | - (not set)
+//   conc <gen> <mlist> => <value and its context copy unchanged 0|1> <bag>
+//       one Baggage value (and its copy in a context) is used by 4 goroutines at once: SetMember of an existing and of a new key,
+//       DeleteMember, Members() with the returned slice overwritten, String(), Len(), Member(k), Inject, Extract onto the context;
+//       afterwards the value and the context copy must dump as at creation (under -race in the thorough tier: no data race).
 // Member/property specs and the observed-bag syntax are those of harness/wb/baggage/zz_verif_c11_core_test.go.
 
 import (
 	"context"
+	"fmt"
 	"sort"
 	"strconv"
 	"strings"
+	"sync"
 	"testing"
 
 	"go.opentelemetry.io/otel/baggage"
@@ -156,6 +168,159 @@ func vC11PEmit(out *vOut, gen string, ms []vC11PMem) {
 	out.Line("injext %s %s => %s %s", gen, vC11PSpec(ms), hdr, vC11PBag(got))
 }
 
+func vC11PConc(out *vOut, gen string, ms []vC11PMem) {
+	members := make([]baggage.Member, len(ms))
+	for i, m := range ms {
+		members[i] = m.build()
+	}
+	b, err := baggage.New(members...)
+	if err != nil {
+		out.Line("conc %s %s => err -", gen, vC11PSpec(ms))
+		return
+	}
+	dump := func(x baggage.Baggage) string {
+		return vC11PBag(x) + "|" + strconv.Itoa(x.Len()) + "|" + strconv.Itoa(len(x.String()))
+	}
+	rec := dump(b)
+	ctx := baggage.ContextWithBaggage(context.Background(), b)
+	keys := []string{"zz-new"}
+	for _, m := range b.Members() {
+		keys = append(keys, m.Key())
+	}
+	sort.Strings(keys)
+	repl, _ := baggage.NewMemberRaw(keys[len(keys)-1], "replaced")
+	fresh, _ := baggage.NewMemberRaw("zz-fresh", "v")
+	prop := Baggage{}
+	var wg sync.WaitGroup
+	for g := 0; g < 4; g++ {
+		wg.Add(1)
+		go func(g int) {
+			defer wg.Done()
+			for i := 0; i < 25; i++ {
+				switch g {
+				case 0:
+					nb, _ := b.SetMember(repl)
+					_, _ = nb.SetMember(fresh)
+					_ = b.DeleteMember(keys[i%len(keys)])
+				case 1:
+					got := b.Members()
+					for j := range got {
+						got[j] = fresh
+					}
+					_ = b.String()
+					_ = b.Len()
+					for _, p := range b.Member(keys[i%len(keys)]).Properties() {
+						_ = p.String()
+					}
+				case 2:
+					fb := baggage.FromContext(ctx)
+					nb, _ := fb.SetMember(fresh)
+					_ = baggage.ContextWithBaggage(ctx, nb)
+					_ = fb.DeleteMember(keys[0])
+				default:
+					carrier := MapCarrier{}
+					prop.Inject(ctx, carrier)
+					_ = baggage.FromContext(prop.Extract(ctx, carrier)).Len()
+					_ = baggage.FromContext(prop.Extract(ctx, MapCarrier{"baggage": "zz-other=1"})).String()
+				}
+			}
+		}(g)
+	}
+	wg.Wait()
+	bit := "1"
+	if dump(b) != rec || dump(baggage.FromContext(ctx)) != rec {
+		bit = "0"
+	}
+	out.Line("conc %s %s => %s %s", gen, vC11PSpec(ms), bit, vC11PBag(b))
+}
+
+func vC11PCtx(out *vOut, gen string, ops []string) {
+	prop := Baggage{}
+	ctxs := []context.Context{context.Background()}
+	var obs []string
+	for _, op := range ops {
+		f := strings.SplitN(op, ":", 3)
+		recv, _ := strconv.Atoi(f[1])
+		if recv >= len(ctxs) {
+			recv = 0
+		}
+		parent := ctxs[recv]
+		var nc context.Context
+		o := ""
+		switch f[0] {
+		case "w":
+			ms := vC11PParse(f[2])
+			members := make([]baggage.Member, len(ms))
+			for i, m := range ms {
+				members[i] = m.build()
+			}
+			b, _ := baggage.New(members...)
+			nc = baggage.ContextWithBaggage(parent, b)
+		case "o":
+			nc = baggage.ContextWithoutBaggage(parent)
+		case "x":
+			carrier := MapCarrier{}
+			if f[2] != "-" {
+				carrier["baggage"] = vUnhex(f[2])
+			}
+			nc = prop.Extract(parent, carrier)
+		default: // "i"
+			carrier := MapCarrier{}
+			prop.Inject(parent, carrier)
+			nc = parent
+			o = "-"
+			if h, ok := carrier["baggage"]; ok {
+				o = vHex(h)
+			}
+		}
+		if o == "" {
+			o = vC11PBag(baggage.FromContext(nc))
+		}
+		ctxs = append(ctxs, nc)
+		obs = append(obs, o)
+	}
+	final := make([]string, len(ctxs))
+	for i, c := range ctxs {
+		final[i] = vC11PBag(baggage.FromContext(c))
+	}
+	out.Line("ctx %s | %s => %s | %s", gen, strings.Join(ops, " "), strings.Join(obs, " "), strings.Join(final, " "))
+}
+
+var vC11PHdrs = []string{"", "k=v", "a=1,b=2", "k=%2C;p=1", " k = v ; p ", "k", "k=v,", "=", ",", "k=%zz", "k=\xff", "a=1,a=2;q", "\u00e9=1", "k=v;p=%FF"}
+
+func vC11PCtxOps(r *vRand) []string {
+	n := 1 + r.Intn(8)
+	ops := make([]string, n)
+	for i := range ops {
+		recv := strconv.Itoa(r.Intn(i + 1))
+		if r.Intn(3) > 0 {
+			recv = strconv.Itoa(i)
+		}
+		switch x := r.Intn(20); {
+		case x < 6:
+			c := r.Intn(4)
+			ms := make([]vC11PMem, c)
+			for j := range ms {
+				ms[j] = vC11PMemGen(r)
+			}
+			ops[i] = "w:" + recv + ":" + vC11PSpec(ms)
+		case x < 8:
+			ops[i] = "o:" + recv
+		case x < 10:
+			ops[i] = "x:" + recv + ":-"
+		case x < 16:
+			h := vPick(r, vC11PHdrs)
+			if r.Intn(4) == 0 {
+				h = "k" + strconv.Itoa(r.Intn(9)) + "=" + strings.Repeat("%FF", r.Intn(4)) + vPick(r, []string{"", ";p", ";p=1", ",", ";=", ",x=y"})
+			}
+			ops[i] = "x:" + recv + ":" + vHex(h)
+		default:
+			ops[i] = "i:" + recv
+		}
+	}
+	return ops
+}
+
 var vC11PKeys = []string{"a", "b", "c", "k", "key", "k1", "x-y", "%", "!#$&'*+-.^_`|~"}
 var vC11PBadKeys = []string{"", " ", "a b", "k,", "\u00e9", "a\xff", "k="}
 var vC11PVals = []string{"a", "b", "0", " ", "%", ",", ";", "=", "\"", "\\", "\t", "\n", "+", "\u0161", "\u00e9", "\ufffd", "\u20ac", "\U0001F600", "\u00a0", "\u0085", "%41"}
@@ -208,6 +373,12 @@ func TestVerifC11Prop(t *testing.T) {
 			if f[0] == "injext" {
 				vC11PEmit(out, f[1], vC11PParse(f[2]))
 			}
+			if f[0] == "ctx" {
+				vC11PCtx(out, f[1], f[3:])
+			}
+			if f[0] == "conc" {
+				vC11PConc(out, f[1], vC11PParse(f[2]))
+			}
 		}
 		return
 	}
@@ -217,8 +388,38 @@ func TestVerifC11Prop(t *testing.T) {
 	for l := 4096; l <= 4098; l++ {
 		vC11PEmit(out, "f10", []vC11PMem{{ctor: "raw", key: "k", val: strings.Repeat("a", l-2)}})
 	}
+	if os_exhaustive() {
+		// every context script of length <= 4 over a small op alphabet, each op applied to the newest context,
+		// and the same with the last op applied to the root context
+		alpha := []string{"w:%d:raw/x6b/x31/-", "w:%d:-", "w:%d:raw/xc3a9/x31/-", "o:%d", "x:%d:x6b3d76", "x:%d:x6b", "x:%d:x", "x:%d:-", "i:%d"}
+		var rec func(ops []string)
+		rec = func(ops []string) {
+			if len(ops) > 0 {
+				vC11PCtx(out, "exh", ops)
+			}
+			if len(ops) == 4 {
+				return
+			}
+			for _, a := range alpha {
+				rec(append(append([]string{}, ops...), fmt.Sprintf(a, len(ops))))
+				if len(ops) >= 2 {
+					vC11PCtx(out, "exh0", append(append([]string{}, ops...), fmt.Sprintf(a, 0)))
+				}
+			}
+		}
+		rec(nil)
+	}
 	for i := 0; i < n; i++ {
 		switch x := r.Intn(200); {
+		case x >= 140:
+			vC11PCtx(out, "rnd", vC11PCtxOps(r))
+		case x >= 136:
+			c := 1 + r.Intn(5)
+			ms := make([]vC11PMem, c)
+			for j := range ms {
+				ms[j] = vC11PMemGen(r)
+			}
+			vC11PConc(out, "rnd", ms)
 		case x == 0: // around 180 members
 			c := 178 + r.Intn(4)
 			var ms []vC11PMem
